@@ -189,6 +189,44 @@ def renderArgs (sep : Str) : List WArg → Str
   | x :: y :: r => renderArg sep x ++ sep ++ renderArgs sep (y :: r)
 end
 
+/-! ### token level: the argument list of a section as its "data" -/
+
+def WArg.isSimple : WArg → Bool
+  | .sub _ _ => false
+  | _ => true
+
+/-- the bracket sections among the arguments: (name, arguments) -/
+def subsOf : List WArg → List (Str × List WArg)
+  | [] => []
+  | .sub n as :: r => (n.toList, as) :: subsOf r
+  | _ :: r => subsOf r
+
+/-- the token-level instance of `DataOps`: a section's data is its argument list; its name is its
+first (simple) argument, its sections are its bracketed arguments; only the leaf handlers look at text -/
+def treeOps (sep : Str) : DataOps (List WArg) where
+  splitName args := match args with
+    | x :: y :: r => if x.isSimple then some (renderArg sep x, y :: r) else none
+    | _ => none
+  text args := renderArgs sep args
+  sections args := (subsOf args, true)
+
+mutual
+def WArg.depth : WArg → Nat
+  | .sub _ as => WArg.depthL as + 1
+  | _ => 0
+def WArg.depthL : List WArg → Nat
+  | [] => 0
+  | x :: r => max (WArg.depth x) (WArg.depthL r)
+end
+
+/-- TOKEN level `wkt`: the same handlers over the tree instead of over the text -/
+def parseWktToks {α} [Num α] (sep : Str) (tree : WArg) : Except Err (SR α) :=
+  let (sr, e) := parseWKTSectionG (treeOps sep) (tree.depth + 1) [] [tree] newSR
+  let sr := wktFinish sr
+  match e with
+  | some e => .error e
+  | none => .ok sr
+
 def authArg (st : Style) (code : String) : List WArg :=
   if st.auth then [.sub "AUTHORITY" [.q "EPSG", .q code]] else []
 
@@ -212,18 +250,25 @@ def wktGeogName (c : Crs) (st : Style) : String :=
   | .wgs84, false => "WGS 84" | .wgs84, true => "GCS_WGS_1984"
   | .nad83, false => "NAD83" | .nad83, true => "GCS_North_American_1983"
 
-def wktGeog (c : Crs) (st : Style) (top : Bool) : WArg :=
-  let sph : WArg := .sub "SPHEROID" ([.q (if st.esri then "Sph_1999" else "Sph 1999"), .num c.a, .num c.rf] ++ authArg st "7019")
-  let tw : List WArg := match c.datum, c.towgs with
-    | .custom, some ds => [.sub "TOWGS84" (ds.map .num)]
-    | _, _ => []
-  let au (code : String) (body : List WArg) : List WArg :=
-    if st.authFirst then authArg st code ++ body else body ++ authArg st code
-  .sub "GEOGCS" ([.q (wktGeogName c st)] ++ au "4269" ([
-    .sub "DATUM" ([.q (wktDatumName c st)] ++ au "6269" (if st.towgsFirst then tw ++ [sph] else [sph] ++ tw)),
-    .sub "PRIMEM" ([.q "Greenwich", .num ⟨0, if st.esri then 1 else 0⟩] ++ authArg st "8901"),
-    .sub "UNIT" ([.q (if st.esri then "Degree" else "degree"), .num degDec] ++ authArg st "9122")]
-    ++ (if st.axis && top then [.sub "AXIS" [.q "Latitude", .bare "NORTH"], .sub "AXIS" [.q "Longitude", .bare "EAST"]] else [])))
+def wktSphName (st : Style) : String := if st.esri then "Sph_1999" else "Sph 1999"
+def wktSph (c : Crs) (st : Style) : WArg := .sub "SPHEROID" ([.q (wktSphName st), .num c.a, .num c.rf] ++ authArg st "7019")
+def wktTw (c : Crs) : List WArg :=
+  match c.datum, c.towgs with
+  | .custom, some ds => [.sub "TOWGS84" (ds.map .num)]
+  | _, _ => []
+/-- AUTHORITY first or last -/
+def wktAu (st : Style) (code : String) (body : List WArg) : List WArg :=
+  if st.authFirst then authArg st code ++ body else body ++ authArg st code
+def wktDatumBody (c : Crs) (st : Style) : List WArg := if st.towgsFirst then wktTw c ++ [wktSph c st] else [wktSph c st] ++ wktTw c
+def wktDatum (c : Crs) (st : Style) : WArg := .sub "DATUM" ([.q (wktDatumName c st)] ++ wktAu st "6269" (wktDatumBody c st))
+def wktPrimem (st : Style) : WArg := .sub "PRIMEM" ([.q "Greenwich", .num ⟨0, if st.esri then 1 else 0⟩] ++ authArg st "8901")
+def wktDegUnit (st : Style) : WArg := .sub "UNIT" ([.q (if st.esri then "Degree" else "degree"), .num degDec] ++ authArg st "9122")
+def wktGeogAxes (st : Style) (top : Bool) : List WArg :=
+  if st.axis && top then [.sub "AXIS" [.q "Latitude", .bare "NORTH"], .sub "AXIS" [.q "Longitude", .bare "EAST"]] else []
+def wktGeogBody (c : Crs) (st : Style) (top : Bool) : List WArg :=
+  wktAu st "4269" ([wktDatum c st, wktPrimem st, wktDegUnit st] ++ wktGeogAxes st top)
+
+def wktGeog (c : Crs) (st : Style) (top : Bool) : WArg := .sub "GEOGCS" ([.q (wktGeogName c st)] ++ wktGeogBody c st top)
 
 def wktProjName (k : Kind) (esri : Bool) : String :=
   match k, esri with
@@ -261,10 +306,15 @@ def wktUnit (c : Crs) (st : Style) : WArg :=
   | .foot => .sub "UNIT" ([.q (if st.esri then "Foot" else "foot"), .num ⟨3048, 4⟩] ++ authArg st "9002")
   | _ => .sub "UNIT" ([.q (if st.esri then "Foot_US" else "US survey foot"), .num usFootDecQ] ++ authArg st "9003")
 
-def toWktTree (c : Crs) (st : Style) : WArg :=
-  if c.kind = .geog then wktGeog c st true else
+def wktProjection (c : Crs) (st : Style) : WArg :=
+  .sub "PROJECTION" ([.q (wktProjName c.kind st.esri)] ++ (if st.esri then [] else authArg st "9802"))
+def wktPAxes (st : Style) : List WArg := if st.axis then [.sub "AXIS" [.q "X", .bare "EAST"], .sub "AXIS" [.q "Y", .bare "NORTH"]] else []
+def wktPName (st : Style) : String := if st.esri then "Sample_Projected_1999" else "Sample / Projected 1999"
+
+/-- the sections of PROJCS in the order chosen by the style -/
+def wktPCore (c : Crs) (st : Style) : List WArg :=
   let geog := wktGeog c st false
-  let proj : WArg := .sub "PROJECTION" ([.q (wktProjName c.kind st.esri)] ++ (if st.esri then [] else authArg st "9802"))
+  let proj := wktProjection c st
   let unit := wktUnit c st
   let ps := wktParams c st
   let ps := if st.unitPos = 2 then ps.take 2 ++ [unit] ++ ps.drop 2 else ps
@@ -272,12 +322,15 @@ def toWktTree (c : Crs) (st : Style) : WArg :=
   let core := if st.unitPos = 1 then [unit] ++ core else core
   let core := if st.geogLast then core ++ [geog] else [geog] ++ core
   let core := if st.unitPos = 0 then core ++ [unit] else core
-  let core := core ++ (if st.axis then [.sub "AXIS" [.q "X", .bare "EAST"], .sub "AXIS" [.q "Y", .bare "NORTH"]] else [])
-  .sub "PROJCS" ([.q (if st.esri then "Sample_Projected_1999" else "Sample / Projected 1999")] ++
-    (if st.authFirst then authArg st "26910" ++ core else core ++ authArg st "26910"))
+  core ++ wktPAxes st
 
-def toWkt (c : Crs) (st : Style) : Str :=
-  renderArg (if st.spaces then [',', ' '] else [',']) (toWktTree c st)
+def toWktTree (c : Crs) (st : Style) : WArg :=
+  if c.kind = .geog then wktGeog c st true else
+  .sub "PROJCS" ([.q (wktPName st)] ++ wktAu st "26910" (wktPCore c st))
+
+def wktSep (st : Style) : Str := if st.spaces then [',', ' '] else [',']
+
+def toWkt (c : Crs) (st : Style) : Str := renderArg (wktSep st) (toWktTree c st)
 
 /-! ## what a transformer reads -/
 
